@@ -465,9 +465,15 @@ func (e *engine) mergeDelta() error {
 			queryArgs[i] = fact.Args[i]
 		}
 		queryExisting := ast.Atom{pred, queryArgs}
-		existing := false
+		// The store must not be modified while it is being scanned (a
+		// ConcurrentFactStore would wait for its own read lock), so the
+		// facts to merge with are collected first.
+		var existingFacts []ast.Atom
 		e.store.GetFacts(queryExisting, func(existingFact ast.Atom) error {
-			existing = true
+			existingFacts = append(existingFacts, existingFact)
+			return nil
+		})
+		mergeWith := func(existingFact ast.Atom) error {
 			if fact.Equals(existingFact) {
 				return nil // nothing to do.
 			}
@@ -505,8 +511,13 @@ func (e *engine) mergeDelta() error {
 				e.store.Add(fact) // fact and existingFact are incomparable.
 			}
 			return nil
-		})
-		if !existing {
+		}
+		for _, existingFact := range existingFacts {
+			if err := mergeWith(existingFact); err != nil {
+				break
+			}
+		}
+		if len(existingFacts) == 0 {
 			e.store.Add(fact)
 		}
 		return nil
